@@ -716,10 +716,17 @@ def generate(seed: int, index: int, out_dir, tag: str = "", force=None, force_on
         })
     return {
         "seed": seed, "index": index, "tag": tag, "dir": str(out), "sut": g.sut, "helper": g.helper,
+        "gen": {"seed": seed, "index": index, "tag": tag, "force": sorted(force) if force else None, "force_only": force_only, "size": size},
         "sut_file": str(out / f"{g.sut}.py"), "helper_file": str(out / f"{g.helper}.py"),
         "features": sorted(g.on), "classes": classes, "callables": g.callables, "inherited": g.inherited(),
         "sut_imports": g.sut_imports, "future_annotations": g.future,
     }
+
+
+def regenerate(gen: dict, out_dir) -> dict:
+    """Re-create a package from the `gen` record of a manifest (used by replays)."""
+    return generate(gen["seed"], gen["index"], out_dir, tag=gen.get("tag", ""), force=gen.get("force"), force_only=gen.get("force_only", False),
+                    size=gen.get("size", "medium"))
 
 
 # ------------------------------------------------------------------------------------------------------
